@@ -42,6 +42,11 @@ CONSTANTS
     PhaseLen,    \* blocks per phase
     DealBlock,   \* block carrying the commitments and evaluations of the other dealers
     AccBlock,    \* block carrying a (false) accusation against this keyper, -1 = none
+    LateCheckin, \* block carrying the CheckIn event of one other keyper whose encryption key is unknown
+                 \*   when the eon starts (0 = all keys known): its evaluation waits in poly_evals and
+                 \*   is sent in a second poly-eval message ("eval2")
+    Overlap,     \* TRUE: the previous (failing) eon of the keyper set is still active when this one
+                 \*   starts; shiftPhases of block 1 finalises it and queues its failure vote ("old")
     SyncEvery,   \* catch-up: the keyper calls SyncAppWithDB only after the blocks h with
     SyncOff,     \*   h % SyncEvery = SyncOff (and after the last block); one call then handles
                  \*   several blocks, each in its own transaction (fetchEvents2)
@@ -78,6 +83,8 @@ DbInit ==
      rows   |-> <<>>,          \* tendermint_sync_meta rows (current_block) in insertion order
      pure   |-> FALSE,         \* a puredkg row exists
      rec    |-> NoRec,         \* its content
+     evp    |-> 0,             \* poly_evals: polynomial token of the evaluation waiting for a key (0 = none)
+     loadable |-> TRUE,        \* every stored puredkg row can be decoded by shdb.DecodePureDKG
      outbox |-> <<>>,          \* tendermint_outgoing_messages in id order
      res    |-> "none",        \* dkg_result: "none" | "full" (the crash-free outcome) | "other"
      eonkeys |-> 0]            \* outgoing_eon_keys rows
@@ -87,11 +94,12 @@ DbInit ==
 MemDead  == [alive |-> FALSE, synced |-> FALSE, has |-> FALSE, rec |-> NoRec, blocked |-> FALSE]
 MemFresh == [MemDead EXCEPT !.alive = TRUE]
 
-AppInit == [commit |-> FALSE, eval |-> FALSE, acc |-> FALSE, apol |-> FALSE, vote |-> FALSE]
+AppInit == [commit |-> FALSE, eval |-> FALSE, eval2 |-> FALSE, acc |-> FALSE, apol |-> FALSE, vote |-> FALSE]
 
 Init0 ==
     [db |-> DbInit, mem |-> MemFresh, app |-> AppInit,
      sent     |-> <<>>,        \* every broadcast shuttermint executed: [k, p, code]
+     queued   |-> <<>>,        \* every message whose outbox row was ever committed: [k, p], id order
      open     |-> <<>>,        \* my accepted messages in the open block
      blocks   |-> <<>>,        \* blocks[h+1] = my accepted messages in closed block h
      head     |-> 0,           \* last closed block (block 0 = votes, BatchConfig + EonStarted events)
@@ -132,7 +140,7 @@ ShiftOnce(w, target) ==
            [] w.rec.phase = Apologizing ->
                 (* finalizeDKG: puredkg row deleted, result + vote + eon key queued *)
                 LET full == w.rec.own /\ w.rec.recv = Others /\ (w.rec.accd => w.rec.apst) IN
-                Queue([w EXCEPT !.has = FALSE, !.rec = NoRec, !.db.pure = FALSE, !.db.rec = NoRec,
+                Queue([w EXCEPT !.has = FALSE, !.rec = NoRec, !.db.pure = FALSE, !.db.rec = NoRec, !.db.evp = 0,
                                 !.db.res = IF full THEN "full" ELSE "other",
                                 !.db.eonkeys = IF full THEN @ + 1 ELSE @],
                       M("result", 0))
@@ -158,8 +166,17 @@ HandleFixed(w, h) ==
    the commitment; the BeforeSaveHook (sendPolyEvals) queues the evaluations in the same
    transaction *)
 HandleBlock0(w, fresh) ==
-    LET w2 == Dirty([w EXCEPT !.has = TRUE, !.rec = [NoRec EXCEPT !.phase = Dealing, !.poly = fresh]])
+    LET w2 == Dirty([w EXCEPT !.has = TRUE, !.rec = [NoRec EXCEPT !.phase = Dealing, !.poly = fresh],
+                              !.db.evp = IF LateCheckin > 0 THEN fresh ELSE 0])
     IN Queue(Queue(w2, M("commit", fresh)), M("eval", fresh))
+
+(* handleCheckIn stores the key; sendPolyEvals (BeforeSaveHook of every block) then finds the waiting
+   evaluation and queues a second poly-eval message with the same description *)
+HandleLateCheckin(w, h) ==
+    IF h = LateCheckin /\ w.db.evp # 0 THEN Queue([w EXCEPT !.db.evp = 0], M("eval2", w.db.evp)) ELSE w
+
+(* overlapping eons: shiftPhases of block 1 finalises the previous eon (failed) and queues its vote *)
+HandleOverlap(w, h) == IF Overlap /\ h = 1 THEN Queue(w, M("old", 0)) ELSE w
 
 (* smdriver.handleBlock for block h = db.sync + 1, inside one database transaction:
    [mem, db] = memory afterwards and staged database *)
@@ -167,9 +184,9 @@ TxBody(s, h) ==
     LET m1 == Load(s.mem, s.db)
         w0 == [has |-> m1.has, rec |-> m1.rec, blocked |-> m1.blocked, dirty |-> FALSE,
                db |-> [s.db EXCEPT !.sync = h, !.rows = Append(@, h)]]
-        w1 == Shift(w0, h)
+        w1 == HandleOverlap(Shift(w0, h), h)
         w2 == IF h = 0 THEN HandleBlock0(w1, FreshPoly(s))
-              ELSE HandleFixed(HandleOwns(w1, s.blocks[h + 1]), h)
+              ELSE HandleLateCheckin(HandleFixed(HandleOwns(w1, s.blocks[h + 1]), h), h)
         (* Save: the object, if there is one and it is dirty, is written back *)
         w3 == IF w2.has /\ w2.dirty THEN [w2 EXCEPT !.db.pure = TRUE, !.db.rec = w2.rec] ELSE w2
     IN [mem |-> [m1 EXCEPT !.has = w3.has, !.rec = w3.rec], db |-> w3.db]
@@ -179,17 +196,20 @@ Seen(app, m) ==
     CASE m.k = "checkin" -> TRUE           \* already checked in before the eon
       [] m.k = "commit"  -> app.commit
       [] m.k = "eval"    -> app.eval
+      [] m.k = "eval2"   -> app.eval2
+      [] m.k = "old"     -> TRUE           \* the harness cast this keyper's failure vote when it restarted the eon
       [] m.k = "acc"     -> app.acc
       [] m.k = "apol"    -> app.apol
       [] m.k = "result"  -> app.vote
 Mark(app, m) ==
     CASE m.k = "commit"  -> [app EXCEPT !.commit = TRUE]
       [] m.k = "eval"    -> [app EXCEPT !.eval = TRUE]
+      [] m.k = "eval2"   -> [app EXCEPT !.eval2 = TRUE]
       [] m.k = "acc"     -> [app EXCEPT !.acc = TRUE]
       [] m.k = "apol"    -> [app EXCEPT !.apol = TRUE]
       [] m.k = "result"  -> [app EXCEPT !.vote = TRUE]
       [] OTHER -> app
-MakesEvent(m) == m.k \in {"commit", "eval", "acc", "apol"}
+MakesEvent(m) == m.k \in {"commit", "eval", "eval2", "acc", "apol"}
 
 ----------------------------------------------------------------------------
 (* actions, as operators state -> state (guards separate) *)
@@ -198,7 +218,9 @@ CanTxBody(s)   == s.mem.alive /\ s.pc = "sync" /\ ~s.tx.on /\ s.db.sync < s.head
 DoTxBody(s)    == LET x == TxBody(s, s.db.sync + 1) IN [s EXCEPT !.mem = x.mem, !.tx = [on |-> TRUE, db |-> x.db]]
 
 CanTxCommit(s) == s.mem.alive /\ s.tx.on
-DoTxCommit(s)  == [s EXCEPT !.db = s.tx.db, !.tx.on = FALSE]
+DoTxCommit(s)  == [s EXCEPT !.db = s.tx.db, !.tx.on = FALSE,
+                             !.queued = @ \o [i \in 1..(Len(s.tx.db.outbox) - Len(s.db.outbox)) |->
+                                               s.tx.db.outbox[Len(s.db.outbox) + i]]]
 
 (* sync() / fetchEvents2 applies the closed blocks one transaction after the other and returns when
    every closed block is applied; then the outbox is sent *)
